@@ -191,9 +191,10 @@ Proof.
 Qed.
 
 (* what the LTS assumes about the numbers: every pool has at least one worker; every stage's
-   error channel has capacity 1 and the splitter's is unbuffered (the theorems do not depend on
-   the worker counts themselves) *)
+   error channel has capacity 1, the splitter's is unbuffered and so is the From-Root feeder's
+   (which never carries a value: it is only closed) (the theorems do not depend on the worker
+   counts themselves) *)
 Example expected_constants :
   forallb (fun c => Nat.ltb 0 (snd c)) constants = true /\
-  forallb (fun c => if String.eqb (fst c) "split" then Nat.eqb (snd c) 0 else Nat.eqb (snd c) 1) err_channel_capacity = true.
+  forallb (fun c => if String.eqb (fst c) "split" || String.eqb (fst c) "feedRoot" then Nat.eqb (snd c) 0 else Nat.eqb (snd c) 1) err_channel_capacity = true.
 Proof. split; reflexivity. Qed.
